@@ -15,6 +15,12 @@ TRUSTED = [
     "ORACLES: their results are shipped with each op (ora tables, texts inside the value tree); the theorems assume the stated "
     "FloatCodec / TimeCodec / decimal laws as hypotheses",
     "proto.Marshal / Unmarshal for the bytes inside Any values (inner messages are shipped as trees; the bytes are not compared)",
+    "C06 step bound: J5V/Codec/Steps.lean counts the calls of the Lean decoder model (same recursion, continuing loops with the model's "
+    "own intermediate results); it is a statement about the model's work (one step per decodeValue call / loop iteration / re-scanned "
+    "node of an Any value, scalar conversion = 1 step per token), not about Go instruction counts: wall time of the real code is "
+    "observed only by codec.stress / codec.fuzz (per-call bound 1.5 s + 5 us/byte)",
+    "document-level relations of C03 (J5V/Codec/Doc.lean: Spells* = admissible spellings of a message, Fault* = a fault anywhere, "
+    "queryDoc) and of C08 (J5V/Codec/Wire.lean: Conforms) are hand-written specifications, defined by recursion on the document only",
 ]
 
 ASSUMPTIONS = [
